@@ -170,12 +170,17 @@ class FalsyP(P):
         return False
 
 
-def the_case(N, falsy=False):
+def the_case(N, falsy=False, value_eq=False):
     def h(ctx):
         n = ctx.choice("n", N + 1)
-        objs = [(FalsyP if falsy and ctx.flag("falsy%d" % i) else P)(ctx.fresh_int("a%d" % i)) for i in range(n)]
+        if value_eq:
+            from .eqlworld import VP
+
+            objs = [VP(ctx.fresh_int("a%d" % i)) for i in range(n)]  # distinct objects that may compare equal: each is a solution of its own
+        else:
+            objs = [(FalsyP if falsy and ctx.flag("falsy%d" % i) else P)(ctx.fresh_int("a%d" % i)) for i in range(n)]
         k = ctx.fresh_int("k")
-        x = let(P, objs, name="x")
+        x = let(type(objs[0]) if (value_eq and objs) else P, objs, name="x")
         q = the(entity(x, x.a > k))
         got, exc = None, None
         try:
@@ -207,6 +212,7 @@ def cases(tier, seed):
         M_ = 3 if tier == "quick" else 5
         cs.append(Case("an:%s|two overlapping evaluations|N<=%d" % (k, M_), integ(k, M_, overlapping=True), key="an:%s|overlapping" % k, reset=eql_reset, timeout=600, max_paths=200000, meta=dict(N=M_)))
     cs.append(Case("the|N<=%d" % N, the_case(N), key="the", reset=eql_reset, timeout=600, meta=dict(N=N)))
+    cs.append(Case("the|value-equal domain objects|N<=3", the_case(3, value_eq=True), key="the|value-eq", reset=eql_reset, timeout=600, meta=dict(N=3)))
     cs.append(Case("the|some elements are falsy objects|N<=3", the_case(3, falsy=True), key="the|falsy", reset=eql_reset, timeout=600, meta=dict(N=3)))
     return cs
 
